@@ -58,6 +58,10 @@ func (cmd *search) Execute(_ context.Context, f *flag.FlagSet, _ ...interface{})
 	}
 	expr := f.Arg(0)
 
+	if cmd.concurrency < 1 {
+		return cmd.UsageError("concurrency must be at least 1: got %d", cmd.concurrency)
+	}
+
 	// Evaluate expression.
 	cmd.Log.Printf("expr: %q", expr)
 
